@@ -129,6 +129,13 @@ func widerListType(a, b reflect.Type) bool {
 
 // reachesInterface check whether a value of typ can hold an interface slot at any depth
 func reachesInterface(typ reflect.Type, seen map[reflect.Type]bool) bool {
+	// a named container type may contain itself (type Tree []Tree), like a struct
+	if typ.Name() != "" && typ.Kind() != reflect.Struct {
+		if seen[typ] {
+			return false
+		}
+		seen[typ] = true
+	}
 	switch typ.Kind() {
 	case reflect.Interface:
 		return true
@@ -240,26 +247,39 @@ func ExtractValue(v reflect.Value, extractor ValueExtractor) {
 //TypeMapOf type
 func TypeMapOf(typ reflect.Type) map[string]reflect.Type {
 	typMap := make(map[string]reflect.Type)
-	FetchType(typ, typMap)
+	fetchType(typ, typMap, make(map[reflect.Type]bool))
 	return typMap
 }
 
 //FetchType map
 func FetchType(typ reflect.Type, typMap map[string]reflect.Type) {
+	fetchType(typ, typMap, make(map[reflect.Type]bool))
+}
+
+// fetchType walks typ; walked remembers the named container types (type Tree []Tree)
+// already entered, which unlike structs leave no entry in typMap
+func fetchType(typ reflect.Type, typMap map[string]reflect.Type, walked map[reflect.Type]bool) {
 	typ = UnpackPtrType(typ)
+
+	if typ.Name() != "" && (typ.Kind() == reflect.Slice || typ.Kind() == reflect.Array || typ.Kind() == reflect.Map) {
+		if walked[typ] {
+			return
+		}
+		walked[typ] = true
+	}
 
 	if IsRawKind(typ.Kind()) {
 		return
 	}
 
 	if typ.Kind() == reflect.Array || typ.Kind() == reflect.Slice {
-		FetchType(typ.Elem(), typMap)
+		fetchType(typ.Elem(), typMap, walked)
 		return
 	}
 
 	if typ.Kind() == reflect.Map {
-		FetchType(typ.Key(), typMap)
-		FetchType(typ.Elem(), typMap)
+		fetchType(typ.Key(), typMap, walked)
+		fetchType(typ.Elem(), typMap, walked)
 		return
 	}
 
@@ -274,7 +294,7 @@ func FetchType(typ reflect.Type, typMap map[string]reflect.Type) {
 
 	typMap[typ.Name()] = typ
 	for i := 0; i < typ.NumField(); i++ {
-		FetchType(typ.Field(i).Type, typMap)
+		fetchType(typ.Field(i).Type, typMap, walked)
 	}
 
 }
